@@ -937,6 +937,15 @@ def t_boundaries(ctx):
                 for mode in ('plain', 'ctx_instance'):
                     value_case(ctx, {'spec': ('FixedPoint', carrier, fb),
                                      'value': i / (1 << fb), 'mode': mode})
+            # off-grid values anywhere in the range, also in the last
+            # partial quantum at either end (still within one quantum of a
+            # representable value)
+            for i, off in ((hi, 0.25), (hi, 0.5), (hi, 0.75), (hi, 0.984375),
+                           (lo, -0.25), (lo, -0.75), (hi - 1, 0.5),
+                           (0, 0.5), (-1, 0.5), (33, 0.99)):
+                value_case(ctx, {'spec': ('FixedPoint', carrier, fb),
+                                 'value': (i + off) / (1 << fb),
+                                 'mode': 'ctx_instance'})
     # UUID spellings uuid.UUID accepts: E1 only (decode returns canonical)
     from minecraft.networking.types import UUID
     for txt in ('12345678123456781234567812345678',
